@@ -46,9 +46,9 @@ theorem process_stagnant (s : Compressor ℝ) (h : s.Stagnant) (xs : List (Frame
          (runTick (tickV s dt) (s.envL, s.envR) xs).2) := by
   obtain ⟨ht, hr, ha, hl, hg, hm⟩ := h
   unfold process
-  simp only [Parameter.settle tw64 s.threshold _ info ht, Parameter.settle tw64 s.ratio _ info hr,
-    Parameter.settle twDur s.attackDuration _ info ha, Parameter.settle twDur s.releaseDuration _ info hl,
-    Parameter.settle tw32 s.makeupGain _ info hg, Parameter.settle tw32 s.mix _ info hm]
+  simp only [Parameter.settleA tw64 s.threshold _ info ht, Parameter.settleA tw64 s.ratio _ info hr,
+    Parameter.settleA twDur s.attackDuration _ info ha, Parameter.settleA twDur s.releaseDuration _ info hl,
+    Parameter.settleA tw32 s.makeupGain _ info hg, Parameter.settleA tw32 s.mix _ info hm]
   have hinj : ({ s with
       threshold := { s.threshold with prev := s.threshold.raw }
       ratio := { s.ratio with prev := s.ratio.raw }
